@@ -1,6 +1,6 @@
 (* Properties_C06.v — C06: only the library's own, still-unreaped child is signalled or reaped.
    Theorems only. *)
-From Verif Require Import Lib WorldSpec WorldSpec2 LibSpec WaitSpec.
+From Verif Require Import Lib WorldSpec WorldSpec2 LibSpec WaitSpec ParentSpec StartSpec.
 From Coq Require Import Lia.
 Local Open Scope Z_scope.
 
@@ -65,6 +65,21 @@ Proof.
   exists st, wz, ev, post. auto.
 Qed.
 Print Assumptions C06_reap_only_unreaped.
+
+(* a handle that start reported as running refers to a positive pid, and that pid is what a fork
+   call made by that very start returned -- on every path, for every fault plan (allocation
+   failures included): never 0, -1 or some other process *)
+Theorem C06_started_pid_is_own_fork : forall p argv o src (ck : rp -> MW unit) w r p' w',
+  WorldSpec2.wf w -> 0 <= w_cur w -> 0 < w_next_blk w -> (forall q, kp (w_cur w) (ck q)) ->
+  reproc_start p argv o src ck w = Ret (r, p') w' -> 0 <= r ->
+  0 < h_handle p' /\
+  exists l ev, w_trace w' = l ++ w_trace w /\ In ev l /\ e_call ev = CFork /\ e_ret ev = h_handle p' /\ e_pid ev = w_cur w'.
+Proof.
+  intros p argv o src ck w r p' w' W Hp Hb Hk E Hr.
+  destruct (reproc_start_result p argv o src ck w r p' w' W Hp Hb Hk E) as [[H _]|(_ & H2 & H3 & _)]; [lia|].
+  split; [exact H2|exact H3].
+Qed.
+Print Assumptions C06_started_pid_is_own_fork.
 
 (* operations on a never-started handle are rejected without any system call *)
 Theorem C06_not_started_rejected : forall p w, h_status p = STATUS_NOT_STARTED ->
